@@ -267,7 +267,8 @@ namespace gmut {
         // (aims at the end-of-file checks of the token readers)
         auto st = statements(s);
         if (st.empty()) return false;
-        const auto x = st[g.below(st.size())];
+        // 1/3: one of the header statements (@DSL, @Behaviour...)
+        const auto x = g.below(3) == 0 ? st[g.below(std::min<std::size_t>(st.size(), 3))] : st[g.below(st.size())];
         const auto sub = s.substr(x.first, x.second - x.first);
         auto tb = tokenBoundaries(sub);
         // drop the boundaries located in the leading blanks
@@ -278,7 +279,7 @@ namespace gmut {
           if (!blank) ok.push_back(b);
         }
         if (ok.empty()) return false;
-        const auto k = g.below(std::min<std::size_t>(ok.size(), 6));
+        const auto k = g.below(std::min<std::size_t>(ok.size(), 12));
         s.resize(x.first + ok[k]);
         return true;
       }
